@@ -4,6 +4,8 @@ import (
 	"encoding/json"
 	"flag"
 	"fmt"
+	"go/parser"
+	"go/token"
 	"go/types"
 	"os"
 	"path/filepath"
@@ -144,6 +146,28 @@ func run(o *options) int {
 			}
 		}
 	}
+	// import aliases of every package that has a contract file (its contracts may be used by callers
+	// in other packages even when the package itself is only loaded as a dependency)
+	for f, pp := range pkgOfFile {
+		if _, done := g.aliases[pp]; done {
+			continue
+		}
+		g.aliases[pp] = map[string]string{}
+		fset := token.NewFileSet()
+		pkgsAst, err := parser.ParseDir(fset, filepath.Dir(f), func(fi os.FileInfo) bool { return !strings.HasSuffix(fi.Name(), "_test.go") }, parser.ImportsOnly)
+		if err != nil {
+			continue
+		}
+		for _, pa := range pkgsAst {
+			for _, file := range pa.Files {
+				for _, is := range file.Imports {
+					if is.Name != nil && is.Name.Name != "_" && is.Name.Name != "." {
+						g.aliases[pp][is.Name.Name] = strings.Trim(is.Path.Value, "\"")
+					}
+				}
+			}
+		}
+	}
 	loadS := time.Since(start).Seconds()
 	if o.prop == "WARMUP" {
 		fmt.Printf("govc: warm-up load of %d packages in %.1fs\n", len(pkgs), loadS)
@@ -160,6 +184,13 @@ func run(o *options) int {
 	if o.dump != "" {
 		fn := byName[o.dump]
 		if fn == nil {
+			// list the names that contain the requested suffix, to help keying closures
+			want := o.dump[strings.Index(o.dump, "::")+2:]
+			for k := range byName {
+				if strings.Contains(k, strings.SplitN(want, "$", 2)[0]) {
+					fmt.Println(k)
+				}
+			}
 			fatal("no function %s", o.dump)
 		}
 		fn.WriteTo(os.Stdout)
